@@ -165,7 +165,9 @@ Definition proj_value (all_keys : list bytes) (key : bytes) (r : fresult) : byte
   if beq key key_fullname then extractor_fullname all_keys (fr_name r)
   else extract key (fr_name r) (fr_cfg r).
 
-(** the filter part of one field (only fixed orders have one; .config cannot be fixed) *)
+(** the filter part of one field (only fixed orders have one; .config cannot be
+    fixed; the fields come from an ACCEPTED projection, so a fixed order has at
+    least one value -- key@fixed and key@() are rejected by C07's new_projection) *)
 Definition field_filter (all_keys : list bytes) (p : pfield) (r : fresult) : option fres :=
   if beq (pf_order p) ord_fixed
   then Some (None, existsb (beq (proj_value all_keys (pf_key p) r)) (pf_fixed p))
